@@ -76,12 +76,39 @@ def exc_is(e: BaseException, *names) -> bool:
 
 
 def safe_bin(x):
-    """bin of a bitstring via the raw bitarray (never through lsb0-sensitive or length-limited paths)."""
-    st = x._bitstore
-    ba = st._bitarray
-    n = st.modified_length
-    s = ba.to01()
-    return s if n is None else s[:n]
+    """bin of a bitstring via the raw bitarray (never through lsb0-sensitive or length-limited paths); if the private
+    layout is not what this expects (a refactored tree), the public whole-value property is used instead."""
+    try:
+        st = x._bitstore
+        ba = st._bitarray
+        n = st.modified_length
+        s = ba.to01()
+        return s if n is None else s[:n]
+    except AttributeError:
+        return x.bin
+
+
+def is_stream(x) -> bool:
+    return is_bits(x) and 'ConstBitStream' in _mro_names(type(x))
+
+
+def get_pos(x):
+    """Bit position of a stream through the public property."""
+    try:
+        return x.pos
+    except AttributeError:
+        return None
+
+
+def set_pos(x, p):
+    """Seek through the public property (p is always a valid position); private fallback for a stream in a broken state."""
+    try:
+        x.pos = p
+    except Exception:
+        try:
+            x._pos = p
+        except Exception:
+            pass
 
 
 def canon(x, depth=0):
@@ -100,8 +127,8 @@ def canon(x, depth=0):
         return {'exc': exc_name(x)}
     if is_bits(x):
         d = {'c': type(x).__name__, 'bin': x.bin}
-        if hasattr(x, '_pos'):
-            d['pos'] = x._pos
+        if is_stream(x):
+            d['pos'] = get_pos(x)
         return d
     if is_array(x):
         return {'A': str(x.dtype), 'bin': x.data.bin}
